@@ -517,6 +517,13 @@ func (e *engine) probeDefects() {
 	if !e.fsck {
 		c.Known(tagTrail, e.def.trail, m)
 	}
+	asFoundFull, m = safely(witnessIndexFull)
+	if burst, bm := safely(witnessBurstSplit); burst {
+		asFoundFull, m = true, m+"; "+bm
+	}
+	if !e.fsck {
+		c.Known(tagIndexFull, asFoundFull, m)
+	}
 	if e.fsck {
 		c.Known(tagRemove, dirty, fm)
 		e.def.leak, m = safely(func() (bool, string) { return witnessLeak(c.Scratch) })
@@ -840,6 +847,7 @@ func unitCases(c *hx.Ctx) {
 	rwCases(c, r.Fork())
 	bitmapCases(c, r.Fork())
 	dirpackCases(c, r.Fork())
+	exttreeCases(c, r.Fork())
 }
 
 // asFoundLt: the extent skip test is `<` in the tree under test (set by the witness); the Lean mirror is run with
